@@ -37,7 +37,21 @@ def main():
         elif ob["status"] == "cex":
             w = ob["witness"]
             confirmed = True
-            if isinstance(w, int) and not isinstance(w, bool):
+            if ob.get("literal_kind"):
+                # witness = a literal string of the python repr language: put the constant NODE (as a captured variable would
+                # arrive) into real queries - alone as a column (exact value) and behind a binary minus - and ask engine A / clang
+                from ..tv import gen as _gen
+                from ..tv.runner import Analyzer as _An
+                an_ = _An("C18", N=1, timeout_ms=10000, want=("rows", "nofault", "twin"))
+                probs = []
+                for q_, tags_ in ((f"Select(EventDataset('ds'), lambda e: e.Jets('A').Select(lambda j: j.pt() - {w}))", ("fold_neg",)),
+                                  (f"Select(EventDataset('ds'), lambda e: {w})", ("fold_neg", "exact"))):
+                    r_ = an_.analyse(_gen.make_program(q_, "atlas", tags=tags_))
+                    if r_.violations or r_.status in ("illformed", "illtyped", "frontend"):
+                        probs.append(f"{q_}: {r_.status} {r_.detail[:200]} {[v["text"][:120] for v in r_.violations]}")
+                confirmed = bool(probs)
+                detail = f"{ob['name']}: constant {w} -> " + " || ".join(probs)
+            elif isinstance(w, int) and not isinstance(w, bool):
                 r = constants.replay_int(w)
                 confirmed = r != "raised"
                 detail = f"{ob['name']}: integer {w} is emitted as {r}"
